@@ -1213,3 +1213,30 @@ Proof.
   - destruct HW as [-> | ->]; vm_compute; discriminate.
   - apply page_words_fit_decided. destruct HW as [-> | ->]; vm_compute; reflexivity.
 Qed.
+
+(* REFUTED for the help pages without "no word to break" (page_words_fit), when the style stack is not empty - the theorems are
+   for every state of the stack.  The command "c" of the application "a" with the single option --xx (an integer, default 3,
+   value name "level", description "abcdef"): tag-free, all configuration hypotheses met; the page needs 10 columns.  The style u
+   is open (an earlier write("<u>x") on the same IO).  At 17 columns the option's text "abcdef <b>(default: 3)</b>" is
+   wrapped at 6: "abcdef" / "<b>(de" ... - at 17 and 18 columns the cut falls so that "<b>" is torn and "</b>" is not, and
+   the closing tag does not find b on the stack [u]: ValueError.  With the empty stack, or at 16 and 19 columns, the page renders.
+   Observed alike on the Python code (CommandHelp of such a command on a BufferedIO of width 17 / 18 after io.write("<u>x"),
+   PlainFormatter and AnsiFormatter: ValueError "Incorrectly nested style tag found."; widths 14-16 and 19-21, or no earlier
+   write: no error). *)
+Definition ex_xx : hopt :=
+  {| h_o := {| o_long := [120;120]%N; o_short := None; o_flags := 8 + 512 + 1; o_default := VInt 3 |};
+     h_odesc := Some [97;98;99;100;101;102]%N; h_vname := LEVEL |}.
+Definition ex_xx_page : layout :=
+  command_page (f_styles ex_plainf) (Some [97]%N) [{| lv_name := Some [99]%N; lv_opts := [ex_xx]; lv_args := [] |}] [] None [].
+Definition ex_u_open : formatter :=
+  {| f_kind := FPlain; f_styles := f_styles ex_plainf;
+     f_stack := match aget str_eqb [117]%N (f_styles ex_plainf) with Some p => [p] | None => [] end |}.
+Lemma ex_xx_fine : opt_fine ex_xx.
+Proof. split; [ex_plain|]. split; [exact I|]. split; [repeat constructor; discriminate|]. split; [ex_tagname|repeat constructor; discriminate]. Qed.
+Example command_help_renders_refuted :
+  length (f_stack ex_u_open) = 1%nat /\ needed_width_for (f_styles ex_plainf) ex_xx_page = 10%Z /\
+  page_words_fitb (f_styles ex_plainf) 17 ex_xx_page = false /\ page_words_fitb (f_styles ex_plainf) 24 ex_xx_page = true /\
+  render_page 17 ex_u_open ex_xx_page = Err ValueError /\ render_page 18 ex_u_open ex_xx_page = Err ValueError /\
+  (match render_page 16 ex_u_open ex_xx_page, render_page 19 ex_u_open ex_xx_page, render_page 17 ex_plainf ex_xx_page, render_page 24 ex_u_open ex_xx_page with
+   | Ok _, Ok _, Ok _, Ok _ => True | _, _, _, _ => False end).
+Proof. vm_compute. repeat split; reflexivity. Qed.
